@@ -112,12 +112,19 @@ func c09ValidationCache(c *sim.RunCtx) {
 		Dt      time.Duration
 	}
 	var ops []vop
+	var usedDigests []int
 	for i, n := 0, 4+t.Choose(16); i < n; i++ {
 		if t.Chance(1, 5) {
 			ops = append(ops, vop{Kind: 1, Dt: time.Duration(1+t.Choose(8)) * duration / 4})
 			continue
 		}
 		o := vop{D: t.Choose(len(ds)), Ctor: t.Choose(3), Cons: t.Pick(4, 2, 2, 1)}
+		// half of the reads return to a digest that was read before: cached
+		// verdicts only matter on a digest's second and later reads
+		if len(usedDigests) > 0 && t.Chance(1, 2) {
+			o.D = usedDigests[t.Choose(len(usedDigests))]
+		}
+		usedDigests = append(usedDigests, o.D)
 		// mostly the content the digest describes (or would describe under another function), sometimes another one of the same size
 		o.Content = t.Choose(len(contents))
 		d := ds[o.D]
